@@ -83,6 +83,12 @@ int main(int argc, char **argv) {
                 in_call = 0; int e = errno;
                 if (d) scribble_free(d, n);
                 if (r) printf("true"); else printf("refused %s", ename(e));
+            } else if (!strcmp(op, "addself")) {
+                /* the new element is one of the vector's own, handed in by the pointer getat(..., newmem=false) returns */
+                void *d = v->getat(v, atoi(a2), false);
+                if (!d) printf("noself");
+                else { errno = 0; in_call = 1; bool r = v->addat(v, atoi(a1), d); in_call = 0; int e = errno;
+                       if (r) printf("true"); else printf("refused %s", ename(e)); }
             } else if (!strcmp(op, "getat") || !strcmp(op, "getfirst") || !strcmp(op, "getlast") ||
                        !strcmp(op, "popat") || !strcmp(op, "popfirst") || !strcmp(op, "poplast")) {
                 int at = op[3] == 'a'; void *r;
